@@ -448,6 +448,11 @@ func (m *c35) ics20(i int, r *kit.Rng) {
 		}
 	}
 	junk := genBytes(r, 700)
+	if r.Intn(4) == 0 {
+		// bare JSON documents instead of random bytes
+		junk = []byte(kit.Pick(r, []string{"null", " null ", "\n\tnull\n", "true", "0", `""`, "[]", "[null]", "{}", `{"denom":null}`}))
+		c.Inc("ics20_bare_json_documents")
+	}
 	for _, enc := range ics20Encodings {
 		_, err, p := m.decodeICS20(junk, enc)
 		c.Inc("ics20_random_bytes")
